@@ -4,6 +4,7 @@ Forking is stateless (re-execution with a recorded decision prefix), so no state
 `Executor.branch` / `Executor.choose` consult the prefix first and extend the trace afterwards.
 Path conditions live in one z3 solver per run.
 """
+import os
 import re
 import sys
 import time
@@ -1089,6 +1090,25 @@ class Executor:
             return cands[0]
         if not cands:
             return None
+        if hint and '<' in hint:
+            # impl blocks that differ in a marker type argument (e.g. `Foo<.., ShipHash>` / `Foo<.., ShipBroadcastRight>`):
+            # take the one whose self type shares most generic arguments, textually, with the call's turbofish
+            def gargs(t):
+                i = t.find('<')
+                if i < 0:
+                    return []
+                j = match_close(t, i)
+                return [a.strip() for a in split_top(t[i + 1:j])]
+            ha = gargs(hint.replace('::<', '<'))
+            scored = []
+            for f in cands:
+                f.parse()
+                fa = gargs(f.arg_types[0]) if f.arg_types else []
+                scored.append((sum(1 for a, b in zip(ha, fa) if a == b) if len(ha) == len(fa) else -1, f))
+            best = max(sc for sc, _ in scored)
+            top = [f for sc, f in scored if sc == best]
+            if len(top) == 1 and best > 0:
+                return top[0]
         raise Unsupported('ambiguous impl %s for %s::%s (%d candidates)' % (traitbase, selfbase, method, len(cands)))
 
     def _arg_compatible(self, ty, a):
@@ -1165,7 +1185,7 @@ class Executor:
                 res = r0.trait_call(self, c.typebase, c.method, args)
                 if res is not NotImplemented:
                     return res
-            f = self.find_impl(None, c.typebase, c.method, args, c.typath)
+            f = self.find_impl(None, c.typebase, c.method, args, c.typath + (c.tgenerics or ''))
             if f is not None:
                 return self.call_function(f, args)
             # trait method called with type-qualified syntax, e.g. `Coord::clone`
